@@ -256,7 +256,7 @@ func genScenario(seed uint64, run int, tier string) *scenario {
 	}
 	switch sc.Class {
 	case "compact":
-		sc.NCompact = r.Range(1, 3)
+		sc.NCompact = r.Range(2, 4)
 	case "txn":
 		sc.NTxn = r.Range(1, 3)
 		// and some large batches that take Write's transaction path
@@ -502,7 +502,11 @@ func runScenario(sc *scenario) *runResult {
 			defer wg.Done()
 			<-start
 			time.Sleep(time.Duration(50*(k+1)) * time.Microsecond)
-			_ = db.CompactRange(util.Range{})
+			rg := util.Range{}
+			if k%2 == 1 {
+				rg = util.Range{Start: []byte{0xff}} // overlaps no key: the branch that does not rotate the memdb
+			}
+			_ = db.CompactRange(rg)
 		}()
 	}
 	for k := 0; k < sc.NTxn; k++ {
@@ -685,6 +689,7 @@ func (rr *runResult) check() (groups []*group) {
 	bad := func(f string, a ...interface{}) { rr.problems = append(rr.problems, fmt.Sprintf(f, a...)) }
 	if rr.hang != "" {
 		bad("hang: %s", rr.hang)
+		rr.jrecords, rr.haveCont = nil, false
 	}
 	// every call returned exactly once
 	for id, cs := range rr.calls {
@@ -866,12 +871,18 @@ func (rr *runResult) check() (groups []*group) {
 		}
 	}
 	for _, g := range groups {
+		if rr.hang != "" {
+			break
+		}
 		if g.jok && found[g] != 1 {
 			bad("group of %d (seq %d, merged %v) has %d journal records", g.leader, g.seq, g.merged, found[g])
 		}
 		if g.jfail && found[g] > 1 {
 			bad("failed group of %d has %d journal records", g.leader, found[g])
 		}
+	}
+	if rr.hang != "" {
+		return groups
 	}
 	// per call: entries in the journal and in the DB
 	for id, cs := range rr.calls {
